@@ -284,7 +284,7 @@ func checkC05(r *core.Run) {
 		ck := &guard.Checker{P: r.P, Fn: f, Res: res}
 		for i, c := range calls {
 			nSites++
-			key := core.Key("T-cancel-pre", r.P.Name(f), fmt.Sprintf("CancelOrder#%d", i+1))
+			key := core.Key("T-cancel-pre", r.KeyName(f), fmt.Sprintf("CancelOrder#%d", i+1))
 			ordStatus := "*" + fGetOrder + "(*)#0.Status"
 			isPending, _ := ck.MustPass(c.Block(), []guard.Atom{guard.Eq(ordStatus, pending)})
 			shardsGone := allShardsRemovedBefore(r, f, c)
@@ -417,7 +417,7 @@ func ruleSchedMeta(r *core.Run) {
 		}
 		for i, c := range calls {
 			n++
-			key := core.Key("T-sched-meta", r.P.Name(f), fmt.Sprintf("RemoveMetadata#%d", i+1))
+			key := core.Key("T-sched-meta", r.KeyName(f), fmt.Sprintf("RemoveMetadata#%d", i+1))
 			sched := blocksCalling(r, f, rmSched)
 			paired := false
 			if len(sched) > 0 {
@@ -467,7 +467,7 @@ func ruleRefundBooked(r *core.Run) {
 				continue // payout to the claiming provider, not an order refund
 			}
 			n++
-			key := core.Key("T-refund-booked", r.P.Name(f), "market refund lowers Order.Amount and is persisted")
+			key := core.Key("T-refund-booked", r.KeyName(f), "market refund lowers Order.Amount and is persisted")
 			amt := normT(e.Args[2].String())
 			coin := strings.TrimSuffix(strings.TrimPrefix(amt, "["), "]")
 			okDelta := false
